@@ -33,7 +33,7 @@ class Job:
                  unwind=None, label="proof", defines=None, min_post=1, min_lis=0,
                  timeout=900, tiers=("quick", "thorough"), solver=None, note="",
                  replay=None, objbits=None, extra_cbmc=(), fallback=True, maxw=None,
-                 expect_fail=(), src=None, unwindset=None, cost=10, family=None):
+                 expect_fail=(), src=None, unwindset=None, cost=10, family=None, optional=False, canary_from=None):
         self.name = name; self.driver = driver; self.entry = entry
         self.enforce = enforce; self.replace = list(replace); self.mode = mode
         self.unwind = unwind; self.label = label; self.defines = dict(defines or {})
@@ -41,7 +41,7 @@ class Job:
         self.tiers = tiers; self.solver = solver; self.note = note; self.replay = replay
         self.objbits = objbits; self.extra_cbmc = list(extra_cbmc); self.fallback = fallback
         self.maxw = maxw; self.expect_fail = list(expect_fail); self.src = src
-        self.unwindset = unwindset; self.cost = cost; self.family = family
+        self.unwindset = unwindset; self.cost = cost; self.family = family; self.optional = optional; self.canary_from = canary_from
 
     def maxw_for(self, tier):
         if self.maxw is not None:
@@ -193,7 +193,7 @@ def is_proof_internal(r):
 def execute(job, tier, builddir, maxw, solver, log):
     """Run one job (proof run + vacuity run).  Returns a dict."""
     os.makedirs(builddir, exist_ok=True)
-    res = {"job": job.name, "function": job.enforce or job.entry, "mode": job.mode, "label": job.label,
+    res = {"job": job.name, "function": (job.enforce or job.entry).split("/")[0], "mode": job.mode, "label": job.label,
            "solver": solver, "maxw": maxw, "status": "ok", "failed": [], "internal_failed": [],
            "obligations": 0, "discharged": 0, "seconds": 0.0, "canary": None, "note": job.note,
            "replaced": job.replace, "unwind": job.unwind, "errors": []}
@@ -260,6 +260,12 @@ def execute(job, tier, builddir, maxw, solver, log):
         res["status"] = "vacuous"
         res["errors"].append("expected >= %d loop_invariant_step obligations, found %d (loop contract dropped?)" % (job.min_lis, res["n_lis"]))
     # vacuity run
+    if job.canary_from:
+        # same contract and harness are checked for reachability by the sibling job on a sub-domain
+        res["canary"] = "by sibling job " + job.canary_from
+        res["wall"] = time.time() - t0
+        res["_bins"] = {"main": main_bin}
+        return res
     can_bin = build(True, ".c")
     if can_bin is None:
         res["status"] = "tool-error"
